@@ -361,6 +361,11 @@ def p_term(e):                             # factor { mul_op factor }
 def p_factor(e):                           # primary [ (^ | .^) primary ]
     if is_bin(e, POW):
         return p_primary(e[2]) + [e[1]] + p_primary(e[3])
+    if e[0] == "usign":
+        # pymoca DIALECT (not in the specification's grammar): rule expr's prefix alternative `op expr` is admissible
+        # in every operand position and binds tightest, so `a / - b * c` means (a / (-b)) * c.  A "usign" node is
+        # a unary sign printed WITHOUT the parentheses the specification would demand; same meaning as "un".
+        return [e[1]] + p_factor(e[2])
     return p_primary(e)
 
 
@@ -383,13 +388,25 @@ def p_primary(e):
         return out + [")"]
     if k == "par":
         return ["("] + p_expression(e[1]) + [")"]
+    if k in ("idx", "arr"):          # A[i, j]  /  {a, b}: oracle-only shapes (not in the Coq model)
+        items = e[2] if k == "idx" else e[1]
+        out = [e[1], "["] if k == "idx" else ["{"]
+        for i, a in enumerate(items):
+            if i:
+                out.append(",")
+            out += p_expression(a)
+        return out + (["]"] if k == "idx" else ["}"])
     return ["("] + p_expression(e) + [")"]
 
 
 def children(e):
     k = e[0]
-    if k == "un":
+    if k in ("un", "usign"):
         return [e[2]]
+    if k == "idx":
+        return list(e[2])
+    if k == "arr":
+        return list(e[1])
     if k == "bin":
         return [e[2], e[3]]
     if k == "call":
@@ -403,8 +420,12 @@ def children(e):
 
 def rebuild(e, ch):
     k = e[0]
-    if k == "un":
-        return ["un", e[1], ch[0]]
+    if k in ("un", "usign"):
+        return [k, e[1], ch[0]]
+    if k == "idx":
+        return ["idx", e[1], ch]
+    if k == "arr":
+        return ["arr", ch]
     if k == "bin":
         return ["bin", e[1], ch[0], ch[1]]
     if k == "call":
@@ -555,8 +576,12 @@ def ev_gen(e, env):
         return Fraction(int(e[1]))
     if k == "par":
         return ev_gen(e[1], env)
-    if k == "un":
+    if k in ("un", "usign"):
         return ev_op(e[1], [ev_gen(e[2], env)])
+    if k == "idx":
+        return ev_call("idx:" + e[1], [ev_gen(a, env) for a in e[2]])
+    if k == "arr":
+        return ev_call("{}", [ev_gen(a, env) for a in e[1]])
     if k == "bin":
         return ev_op(e[1], [ev_gen(e[2], env), ev_gen(e[3], env)])
     if k == "call":
@@ -595,6 +620,10 @@ def ev_real(t, env):
             raise BadTree("operator %r with %d operand(s)" % (t[1], len(t[2])))
     if k == "C":
         return ev_call(t[1], [ev_real(a, env) for a in t[2]])
+    if k == "VI":
+        return ev_call("idx:" + t[1], [ev_real(a, env) for a in t[2]])
+    if k == "A":
+        return ev_call("{}", [ev_real(a, env) for a in t[1]])
     if k == "IF":
         if len(t[2]) != len(t[1]) + 1 or not t[1]:
             raise BadTree("if with %d conditions and %d branches" % (len(t[1]), len(t[2])))
@@ -616,7 +645,7 @@ def leaves_gen(e):
         return [["bool", e[1]]]
     if k == "str":
         return [["str", decode_string(e[1])]]
-    out = [["fn", e[1]]] if k == "call" else []
+    out = [["fn", e[1]]] if k == "call" else [["fn", "idx:" + e[1]]] if k == "idx" else [["fn", "{}"]] if k == "arr" else []
     for c in children(e):
         out += leaves_gen(c)
     return out
@@ -636,6 +665,11 @@ def leaves_real(t):
     if k == "C":
         out = [["fn", t[1]]]
         for a in t[2]:
+            out += leaves_real(a)
+        return out
+    if k in ("VI", "A"):
+        out = [["fn", "idx:" + t[1]]] if k == "VI" else [["fn", "{}"]]
+        for a in (t[2] if k == "VI" else t[1]):
             out += leaves_real(a)
         return out
     if k == "IF":
@@ -660,7 +694,8 @@ def leaves_src(e):
         return out
     if e[0] in ("var", "num", "bool", "str"):
         return leaves_gen(e)
-    out = [["fn", e[1]]] if e[0] == "call" else []
+    out = ([["fn", e[1]]] if e[0] == "call" else [["fn", "idx:" + e[1]]] if e[0] == "idx"
+           else [["fn", "{}"]] if e[0] == "arr" else [])
     for c in children(e):
         out += leaves_src(c)
     return out
@@ -753,6 +788,95 @@ def gen_untyped(rng, d):
     if x < 0.95:
         return ["bin", rng.choice(BINOPS), gen_untyped(rng, d - 1), gen_untyped(rng, d - 1)]
     return ["if", [gen_untyped(rng, d - 1)], [gen_untyped(rng, d - 1), gen_untyped(rng, d - 1)]]
+
+
+
+def to_usign(rng, e, prob):
+    """rewrite some unary signs to the dialect form (printed without the specification's parentheses)"""
+    e = rebuild(e, [to_usign(rng, c, prob) for c in children(e)])
+    if e[0] == "un" and e[1] in ("+", "-") and rng.random() < prob:
+        return ["usign", e[1], e[2]]
+    return e
+
+
+def signed_operand_cases():
+    """a signed operand (dialect form, no parentheses) in every operand position of every ordered pair of
+    additive / multiplicative operators: a o1 -b o2 c | a o1 (-b o2 c) | -a o1 b o2 c, plus relations/logic outside"""
+    out = []
+    a, b, c, d = (["var", v] for v in "abcd")
+    ops = ADD + MUL
+    for o1 in ops:
+        for o2 in ops:
+            for sg in ("-", "+"):
+                out.append(["bin", o2, ["bin", o1, a, ["usign", sg, b]], c])
+                if sg == "-":
+                    out.append(["bin", o1, a, ["bin", o2, ["usign", sg, b], c]])
+                    out.append(["bin", o2, ["bin", o1, ["usign", sg, a], b], c])
+    for o1 in MUL:
+        for o2 in MUL:
+            out.append(["bin", "-", d, ["bin", o2, ["bin", o2, ["bin", o1, a, ["usign", "-", b]], c], d]])
+            out.append(["bin", "<", ["bin", o2, ["bin", o1, a, ["usign", "-", b]], c], ["usign", "-", d]])
+            out.append(["bin", o2, ["bin", o1, a, ["usign", "-", ["bin", "^", b, ["num", "2"]]]], c])
+            out.append(["bin", o2, ["bin", o1, a, ["usign", "-", ["usign", "-", b]]], c])
+            out.append(["call", "max", [["bin", o2, ["bin", o1, a, ["usign", "+", b]], c], d]])
+    return out
+
+
+def gen_chain(rng):
+    """chain of 3..6 operands (some signed, dialect form) joined by random + - * / and element-wise forms,
+    grouped by a random binary shape (the printer adds the parentheses that shape needs)"""
+    n = rng.randrange(3, 7)
+
+    def operand():
+        x = rng.random()
+        if x < 0.6:
+            e = ["var", rng.choice(AVARS)]
+        elif x < 0.75:
+            e = ["num", rng.choice(["2", "3", "0.5", "1.5"])]
+        elif x < 0.9:
+            e = ["bin", "^", ["var", rng.choice(AVARS)], ["num", rng.choice(["2", "3"])]]
+        else:
+            e = ["call", rng.choice(FUN1), [["var", rng.choice(AVARS)]]]
+        if rng.random() < 0.45:
+            e = ["usign", rng.choice(["-", "-", "+"]), e]
+        return e
+
+    items = [operand() for _ in range(n)]
+    pool = MUL + MUL + ADD
+    if rng.random() < 0.6:          # left-to-right chain with precedence-free (left-assoc) grouping
+        e = items[0]
+        for it in items[1:]:
+            e = ["bin", rng.choice(pool), e, it]
+        return e
+    while len(items) > 1:
+        i = rng.randrange(len(items) - 1)
+        items[i:i + 2] = [["bin", rng.choice(pool), items[i], items[i + 1]]]
+    return items[0]
+
+
+def paren_shape_cases():
+    """parenthesised single expressions whose text contains a comma, and other primaries inside parentheses"""
+    a, b, c, d, n, k = (["var", v] for v in ("a", "b", "c", "d", "n", "k"))
+    one, two = ["num", "1"], ["num", "2"]
+    return [
+        ["bin", "-", ["par", ["call", "max", [a, b]]], c],
+        ["bin", "*", ["par", ["call", "atan2", [a, ["bin", "+", b, c]]]], d],
+        ["par", ["call", "min", [a, b]]],
+        ["bin", "+", c, ["par", ["par", ["call", "max", [a, ["call", "min", [b, c]]]]]]],
+        ["un", "-", ["par", ["call", "max", [a, b]]]],
+        ["bin", "^", ["par", ["call", "max", [a, two]]], two],
+        ["if", [["bin", ">", ["par", ["call", "max", [a, b]]], c]], [["par", ["call", "min", [a, b]]], d]],
+        ["call", "sin", [["par", ["call", "max", [a, b]]]]],
+        ["bin", "+", ["par", ["idx", "A", [one, two]]], c],
+        ["bin", "*", ["idx", "A", [n, ["bin", "+", k, one]]], ["par", ["idx", "B", [one, two, ["num", "3"]]]]],
+        ["un", "-", ["par", ["idx", "A", [n, k]]]],
+        ["bin", "-", ["idx", "v", [one]], ["par", ["idx", "v", [two]]]],
+        ["bin", "-", ["par", ["arr", [a, b]]], c],
+        ["call", "sum", [["par", ["arr", [a, b, c]]]]],
+        ["bin", "*", two, ["par", ["arr", [["bin", "+", a, one], ["un", "-", b]]]]],
+        ["par", ["arr", [a]]],
+        ["par", ["par", ["arr", [a, ["call", "max", [b, c]]]]]],
+    ]
 
 
 def operator_pairs():
@@ -1023,6 +1147,8 @@ def cq_oexpr(t, ids):
 def encode(case, res):
     """Gallina term of type `case`, or None when the observation cannot be expressed (reported separately)"""
     ids = Ids()
+    if any(t in ("[", "]", "{", "}") for t in case["tokens"]):
+        return None            # subscripts / array literals: oracle only, not in the Coq model
     toks = cq_list([cq_tok(t, ids) for t in case["tokens"]])
     if "tree" not in res:
         return None
@@ -1137,6 +1263,15 @@ def run(ctx):
     stats = {}
     for t in operator_pairs():
         cases.append(make_case("pairs", t, p_expression(t), "min"))
+    for t in signed_operand_cases():
+        cases.append(make_case("signed-operand", t, p_expression(t), "dialect-min"))
+    for t in paren_shape_cases():
+        cases.append(make_case("paren-shapes", t, p_expression(t), "min"))
+    for i in range(120 if not big else 3000):
+        t = gen_chain(rng)
+        mode = rng.choice(["dialect-min", "dialect-min", "rand"])
+        tp = t if mode != "rand" else add_pars(rng, t, 0.25, 0.06)
+        cases.append(make_case("chains", tp, p_expression(tp), mode))
     n_typed, n_untyped, n_dialect = (500, 150, 150) if not big else (9000, 4000, 3000)
     if changed and not big:      # adaptive depth: the mirrored code changed -> three times the quick counts
         n_typed, n_untyped, n_dialect = 1500, 450, 450
@@ -1144,6 +1279,8 @@ def run(ctx):
         d = rng.choice([2, 3, 3, 4])
         t = gen_arith(rng, d, stats) if rng.random() < 0.6 else gen_bool(rng, d, stats)
         mode = rng.choice(["min", "min", "full", "rand"])
+        if rng.random() < 0.3:
+            t = to_usign(rng, t, 0.7)       # dialect: signed operands without the specification's parentheses
         tp = t if mode == "min" else add_pars(rng, t, 1.0 if mode == "full" else 0.3, 0.3 if mode == "full" else 0.08)
         toks = p_expression(tp)
         if len(toks) <= 90:
@@ -1151,6 +1288,8 @@ def run(ctx):
     for i in range(n_untyped):
         t = gen_untyped(rng, rng.choice([2, 3, 3]))
         mode = rng.choice(["min", "min", "rand"])
+        if rng.random() < 0.3:
+            t = to_usign(rng, t, 0.7)
         tp = t if mode == "min" else add_pars(rng, t, 0.3, 0.08)
         toks = p_expression(tp)
         if len(toks) <= 90:
@@ -1186,7 +1325,7 @@ def run(ctx):
         skipped += c.pop("_skipped_points", 0)
         if j:
             failing.append((size(c["tree"]), i, j))
-        if c["tree"][0] in ("un", "bin", "if", "call", "par"):
+        if c["tree"][0] in ("un", "usign", "bin", "if", "call", "par", "idx", "arr"):
             nontrivial.add(" ".join(c["tokens"]))
     failing.sort()
     reported_tags = {}
